@@ -890,6 +890,16 @@ def _linear_probes(rng, tier, out):
             _P(out, _mono(vals, 1e-9), '%s-residual-%s' % (solver, dk),
                '%s: residual norm non-increasing (%dx%d, omega=%r)' % (solver, m, n, om),
                _replay_lin(solver, M, dk, wconst, b, x0, niter, om), {'vals': vals})
+        # --- Landweber with the default relaxation 1/|A|_est^2 (power-method estimate, from below)
+        vals = []
+        x = dom.element(x0)
+        cb(x)
+        np.random.seed(rng.randrange(2 ** 31))
+        op2 = odl.MatrixOperator(M, dom, ran)           # fresh object: no cached norm
+        S.landweber(op2, x, rhs, 6, callback=cb)
+        _P(out, _mono(vals, 1e-9), 'landweber-default-omega-%s' % dk,
+           'landweber with omega=None (1/estimated norm^2): residual norm non-increasing', None,
+           {'M': M.tolist(), 'vals': vals})
         # --- Kaczmarz on a consistent system: distance to the solution used to build it
         xs = dom.element(_ivec(rng, n, -3, 3))
         ops, rh, oms = [], [], []
